@@ -2,7 +2,7 @@
     and the finite maps / sets of the model, and decidable equalities.  Used
     only by the correspondence check; no theorem depends on this file. *)
 From Crdt Require Import spec.System model.VClock model.Simple model.Orswot model.MVReg model.Map
-  model.Identifier model.List model.Merkle.
+  model.Identifier model.List model.Merkle proofs.MerkleInv proofs.Merkle.
 
 Definition vc_of_list (l : list (N * N)) : gmap N N := list_to_map l.
 Definition vc_to_list (c : gmap N N) : list (N * N) := map_to_list c.
@@ -47,3 +47,6 @@ Definition n_of_nat := N.of_nat.
 
 Definition natset_of_list (l : list nat) : gset nat := list_to_set l.
 Definition mk_oprec {Op} (a : N) (o : Op) (deps : list nat) : oprec Op := OpRec a o (list_to_set deps).
+
+(** MerkleReg: the specified state of a received node set *)
+Definition merkle_spec (hash : mnode → N) (ns : list mnode) : merkle := spec_state (R_of hash ns).
